@@ -1,13 +1,11 @@
 #!/bin/bash
 # Mutation regression: runs, for every kept seeded change, the quick check of its property (plus extra checks named in
 # tools/seeded_extra.txt as "<name> <Cxx> [<Cxx>...]") against a scratch worktree with the patch applied, and prints
-# one line per change: CAUGHT / SILENT. Nothing is written into /repo or the committed evidence.
+# one line per change: CAUGHT / SILENT / INCONCLUSIVE. Nothing is written into /repo or the committed evidence.
+# usage: tools/check_seeded.sh [<name prefix>]     (PAR=<n> runs n changes at a time, default 3)
 cd "$(dirname "$0")/.."
-only=${1:-}
-for d in seeded/*/; do
-  name=$(basename $d)
-  [ -n "$only" ] && [[ "$name" != $only* ]] && continue
-  prop=${name:0:3}
+one() {
+  d=$1; name=$(basename $d); prop=${name:0:3}
   extra=$(grep -E "^$name " tools/seeded_extra.txt 2>/dev/null | cut -d' ' -f2-)
   out=$(SKIP_CONFIRM=1 tools/try_mutant.sh $d quick $prop $extra 2>&1)
   if echo "$out" | grep -q "^VIOLATION"; then
@@ -17,5 +15,7 @@ for d in seeded/*/; do
   else
     echo "SILENT $name"
   fi
-done
+}
+export -f one
+ls -d seeded/${1:-}*/ | xargs -P ${PAR:-3} -I{} bash -c 'one {}'
 echo "SEEDED REGRESSION DONE"
